@@ -17,9 +17,27 @@ const tokXOR = token.XOR
 const maxInlineDepth = 6
 
 // execCall executes a call (Call, Defer or Go site) and continues with k.
-func (e *Engine) execCall(st *State, fr *Frame, site ssa.Instruction, c *ssa.CallCommon, k cont) {
+func (e *Engine) execCall(st *State, fr *Frame, site ssa.Instruction, c *ssa.CallCommon, k0 cont) {
 	if st.dead {
 		return
+	}
+	k := k0
+	if fr.contract != nil && len(fr.contract.Ghost) > 0 {
+		var hargs []Value
+		if c.IsInvoke() {
+			hargs = append(hargs, e.get(st, fr, c.Value))
+		}
+		for _, a := range c.Args {
+			hargs = append(hargs, e.get(st, fr, a))
+		}
+		e.ghostHooks(st, fr, "before", site, c, hargs, nil)
+		if st.dead {
+			return
+		}
+		k = func(s *State, res []Value) {
+			e.ghostHooks(s, fr, "after", site, c, hargs, res)
+			k0(s, res)
+		}
 	}
 	// builtins
 	if b, ok := c.Value.(*ssa.Builtin); ok {
@@ -168,6 +186,9 @@ func (e *Engine) havocCall(st *State, fr *Frame, site ssa.Instruction, callee *s
 	name := externName(callee)
 	e.assumed["unmodelled call: "+name+" (results unconstrained; memory reachable from its arguments havocked; assumed not to panic)"] = true
 	sig := callee.Signature
+	for _, a := range args {
+		st.escape(a)
+	}
 	if !knownPure[name] {
 		e.havocArgs(st, args, sigParamTypes(callee))
 	}
@@ -283,7 +304,10 @@ func (e *Engine) dynamicCall(st *State, fr *Frame, site ssa.Instruction, c *ssa.
 			}
 		}
 	}
-	e.ghostHooks(st, fr, "before", name, args, nil, site)
+	for _, a := range args {
+		st.escape(a)
+	}
+	st.escape(fv)
 	if spec != nil && spec.Pure {
 		e.assumed["callback/interface call "+name+" in "+displayKey(fr.fn)+": assumed not to modify the verified state (fnspec pure)"] = true
 	} else {
@@ -291,34 +315,57 @@ func (e *Engine) dynamicCall(st *State, fr *Frame, site ssa.Instruction, c *ssa.
 		e.havocAllHeap(st, "dynamic call "+name)
 	}
 	res := e.freshResults(st, c.Signature(), name)
-	e.ghostHooks(st, fr, "after", name, args, res, site)
 	k(st, res)
 }
 
-// ghostHooks runs the "before/after call name#k" hooks of the contract of the function under verification.
-func (e *Engine) ghostHooks(st *State, fr *Frame, when, callee string, args, res []Value, site ssa.Instruction) {
-	if fr.contract == nil {
+// ghostHooks runs the "before/after call name#k" hooks of the contract of the enclosing function:
+// assertions about the arguments (arg0, arg1, ... with the receiver first) and results (res0, ...).
+func (e *Engine) ghostHooks(st *State, fr *Frame, when string, site ssa.Instruction, c *ssa.CallCommon, args, res []Value) {
+	if fr.contract == nil || len(fr.contract.Ghost) == 0 || st.dead {
 		return
 	}
+	callee := callName(c)
+	siteName := ""
+	if site != nil {
+		siteName = fr.sites[site]
+	}
 	for _, h := range fr.contract.Ghost {
-		hn := h.Callee
-		if i := strings.Index(hn, "#"); i >= 0 {
-			hn = hn[:i]
+		if h.When != when {
+			continue
 		}
-		if h.When != when || hn != callee {
+		if h.Callee != callee && h.Callee != siteName && !(strings.HasSuffix(h.Callee, "#0") && strings.TrimSuffix(h.Callee, "#0") == siteName) {
+			continue
+		}
+		if strings.Contains(h.Callee, "#") && h.Callee != siteName && !(strings.HasSuffix(h.Callee, "#0") && strings.TrimSuffix(h.Callee, "#0") == siteName) {
 			continue
 		}
 		vars := map[string]specVal{}
-		for i, a := range args {
-			vars[fmt.Sprintf("arg%d", i)] = specVal{a, nil}
+		var ats []types.Type
+		if c.IsInvoke() {
+			ats = append(ats, c.Value.Type())
 		}
+		for _, a := range c.Args {
+			ats = append(ats, a.Type())
+		}
+		for i, a := range args {
+			var t types.Type
+			if i < len(ats) {
+				t = ats[i]
+			}
+			vars[fmt.Sprintf("arg%d", i)] = specVal{a, t}
+		}
+		sig := c.Signature()
 		for i, r := range res {
-			vars[fmt.Sprintf("res%d", i)] = specVal{r, nil}
+			var t types.Type
+			if i < sig.Results().Len() {
+				t = sig.Results().At(i).Type()
+			}
+			vars[fmt.Sprintf("res%d", i)] = specVal{r, t}
 		}
 		for _, cl := range h.Assert {
-			c := e.evalClause(st, fr, cl, vars)
-			e.Assert(st, fr, "ghost("+when+" "+callee+")", cl.Label, c)
-			st.Assume(c)
+			cnd := e.evalClause(st, fr, cl, vars)
+			e.Assert(st, fr, "call("+when+" "+h.Callee+")", cl.Label, cnd)
+			st.Assume(cnd)
 		}
 		for _, cl := range h.Assume {
 			st.Assume(e.evalClause(st, fr, cl, vars))
@@ -389,7 +436,11 @@ func (e *Engine) applyContract(st *State, fr *Frame, site ssa.Instruction, calle
 		e.Assert(st, fr, "pre("+ck+")", cl.Label+"@"+siteName, c)
 		st.Assume(c)
 	}
-	e.ghostHooks(st, fr, "before", funcKey(callee), args, nil, site)
+	if ct.ModAll || len(ct.Modifies) > 0 {
+		for _, a := range args {
+			st.escape(a)
+		}
+	}
 	oldHeap := copyHeap(st.heap)
 	oldEpoch := st.epoch
 	oldNext := st.next
@@ -407,7 +458,6 @@ func (e *Engine) applyContract(st *State, fr *Frame, site ssa.Instruction, calle
 	for _, cl := range ct.Ensures {
 		st.Assume(env2.Bool(cl.E))
 	}
-	e.ghostHooks(st, fr, "after", funcKey(callee), args, res, site)
 	k(st, res)
 }
 
